@@ -31,6 +31,15 @@ Ltac nlia :=
              end
          end; lia.
 
+(* The development is generic in the placeables: `eok e` says which expressions may stand in a placeable,
+   `etext e X` that X is a layout of e (the text between the blanks inside the braces).  What is needed of
+   them is stated as hypotheses where it is used: render prints such a layout (Hrender_e), get_placeable maps
+   it to an expression that joins to e (Hplace), e is well-formed and in joined form (Hwf_e, Hjoin_e).
+   Instances: RoundTripSel.v.                                                                          *)
+Section Frag.
+Variable eok : expression -> bool.
+Variable etext : expression -> bytes -> Prop.
+
 (* ---------------------------------------------------------------------------------------------- *)
 (* 1. The fragment                                                                                  *)
 
@@ -62,8 +71,7 @@ Fixpoint ml_elements (l : list pattern_element) (prev_text : bool) : bool :=
   | [] => true
   | TextElement v :: r =>
       negb prev_text && ml_text (match r with [] => false | _ => true end) v && ml_elements r true
-  | PlaceableElement (Inline i) :: r => simple_inline i && ml_elements r false
-  | PlaceableElement (Select _ _) :: _ => false
+  | PlaceableElement e :: r => eok e && ml_elements r false
   end.
 
 (* the indentation, beyond the common one, of every non-blank line after the first *)
@@ -120,15 +128,6 @@ Definition ml_entry (e : entry) : bool :=
 
 Definition ml_resource (t : resource) : bool := forallb ml_entry t.
 
-(* sanity: the one-line fragment is inside *)
-Definition b_ (s : string) := bytes_of_string s.
-Example ml_example :
-  ml_pattern (Pattern [TextElement (b_ "first" ++ [10%N] ++ b_ "  indented" ++ [10; 10]%N ++ b_ "last ");
-                       PlaceableElement (Inline (MessageReference (b_ "m") (Some (b_ "a"))));
-                       TextElement ([10%N] ++ b_ "   ");
-                       PlaceableElement (Inline (StringLiteral (b_ "A{"))); TextElement (b_ " x")]) = true.
-Proof. vm_compute. reflexivity. Qed.
-
 (* ---------------------------------------------------------------------------------------------- *)
 (* 2. Layouts                                                                                       *)
 
@@ -153,9 +152,9 @@ Inductive ml_line_layout (B : nat) : list pattern_element -> bytes -> Prop :=
 | mll_text v l0 rest r TL L :
     lines_of v = l0 :: rest -> cont_layout B (continues_after r) rest TL -> ml_line_layout B r L ->
     ml_line_layout B (TextElement v :: r) (l0 ++ TL ++ L)
-| mll_placeable i b1 b2 r L :
-    all_blank b1 -> all_blank b2 -> ml_line_layout B r L ->
-    ml_line_layout B (PlaceableElement (Inline i) :: r) (123%N :: b1 ++ inline_text i ++ b2 ++ 125%N :: L).
+| mll_placeable e b1 b2 X r L :
+    all_blank b1 -> all_blank b2 -> etext e X -> ml_line_layout B r L ->
+    ml_line_layout B (PlaceableElement e :: r) (123%N :: b1 ++ X ++ b2 ++ 125%N :: L).
 
 Inductive ml_value_layout (els : list pattern_element) : bytes -> Prop :=
 | mvl_inline k B L : 1 <= B -> ml_line_layout B els L -> ml_value_layout els (sp k ++ L)
@@ -187,12 +186,16 @@ Proof.
   - destruct (N.eqb b 10); [eexists; eexists; reflexivity | apply IH].
 Qed.
 
+(* render prints a layout of every expression of the class *)
+Hypothesis Hrender_e : forall base e cs, eok e = true ->
+  exists X cs', render_expr base e cs = (X, cs') /\ etext e X.
+
 Lemma render_els_ml_layout base els : forall prev cs, ml_elements els prev = true ->
   exists L cs', render_els base els cs = (L, cs') /\ ml_line_layout base els L.
 Proof.
   induction els as [|el r IH]; intros prev cs Hs.
   - exists [], cs. split; [reflexivity | constructor].
-  - destruct el as [v | [sel vs | i]]; cbn [ml_elements] in Hs; try discriminate Hs.
+  - destruct el as [v | e]; cbn [ml_elements] in Hs.
     + apply andb_prop in Hs as [Hs Hr]. cbn [render_els]. unfold render_text.
       destruct (lines_of_cons v) as (l0 & rest & El). rewrite El.
       change (match r with [] => false | _ :: _ => true end) with (continues_after r).
@@ -203,10 +206,10 @@ Proof.
       exists (l0 ++ TL ++ L), cs2. split; [unfold rret; rewrite <- app_assoc; reflexivity|].
       apply (mll_text base v l0 rest r TL L El HTL HL).
     + apply andb_prop in Hs as [Hi Hr].
-      cbn [render_els render_expr].
+      cbn [render_els].
       destruct (blank_opt_spec cs) as [b1 [cs1 [E1 Hb1]]]. rewrite (rbind_eq _ _ _ _ _ E1).
-      rewrite (rbind_eq _ _ _ _ _ (render_inline_simple i cs1 Hi)).
-      destruct (blank_opt_spec cs1) as [b2 [cs2 [E2 Hb2]]]. rewrite (rbind_eq _ _ _ _ _ E2).
+      destruct (Hrender_e base e cs1 Hi) as [X [cs1' [EX HX]]]. rewrite (rbind_eq _ _ _ _ _ EX).
+      destruct (blank_opt_spec cs1') as [b2 [cs2 [E2 Hb2]]]. rewrite (rbind_eq _ _ _ _ _ E2).
       destruct (IH false cs2 Hr) as [L [cs3 [E3 HL]]]. rewrite (rbind_eq _ _ _ _ _ E3).
       eexists. exists cs3. split; [reflexivity|].
       unfold cat. cbn [concat app]. rewrite app_nil_r. constructor; assumption.
@@ -249,7 +252,7 @@ Qed.
 
 (* ---- streams: a pattern as a sequence of text bytes and placeables; joining does not change it ---- *)
 Definition stream_el (el : pattern_element) : list (N + expression) :=
-  match el with TextElement v => map inl v | PlaceableElement e => [inr e] end.
+  match el with TextElement v => map inl v | PlaceableElement e => [inr (join_expr e)] end.
 Definition stream (els : list pattern_element) : list (N + expression) := flat_map stream_el els.
 
 Definition text_nonempty (el : pattern_element) : Prop :=
@@ -308,36 +311,49 @@ Proof.
     destruct (unstream s) as [|[v|e] r']; reflexivity.
 Qed.
 
-Lemma join_unstream a : Forall text_nonempty a -> join_elements a = unstream (stream a).
+Lemma join_unstream a : Forall text_nonempty a -> join_elements (join_els_map a) = unstream (stream a).
 Proof.
   induction 1 as [|x a Hx Ha IH]; [reflexivity|].
   destruct x as [w|e].
   - destruct w as [|w0 w]; [contradiction|].
     unfold stream. cbn [flat_map stream_el]. fold (stream a).
     rewrite (unstream_text (w0 :: w) (stream a) ltac:(discriminate)), <- IH.
-    cbn [join_elements]. destruct (join_elements a) as [|[v|e] r']; reflexivity.
-  - unfold stream. cbn [flat_map stream_el app unstream join_elements]. fold (stream a). rewrite IH. reflexivity.
+    cbn [join_els_map join_element join_elements]. destruct (join_elements (join_els_map a)) as [|[v|e] r']; reflexivity.
+  - unfold stream. cbn [flat_map stream_el app unstream join_els_map join_element join_elements]. fold (stream a).
+    rewrite IH. reflexivity.
 Qed.
 
-Lemma unstream_normal b : forall prev, normal_els b prev -> unstream (stream b) = b.
+Lemma unstream_normal b : forall prev, normal_els b prev -> unstream (stream b) = join_els_map b.
 Proof.
   induction b as [|x b IH]; intros prev Hb; [reflexivity|].
   destruct x as [v|e]; cbn [normal_els] in Hb.
   - destruct Hb as (_ & Hv & Hb). unfold stream. cbn [flat_map stream_el]. fold (stream b).
-    rewrite (unstream_text v (stream b) Hv), (IH true Hb).
+    rewrite (unstream_text v (stream b) Hv), (IH true Hb). cbn [join_els_map join_element].
     destruct b as [|[v2|e2] b2]; try reflexivity. cbn [normal_els] in Hb. destruct Hb as [Hb _]. discriminate.
-  - unfold stream. cbn [flat_map stream_el app unstream]. fold (stream b). rewrite (IH false Hb). reflexivity.
+  - unfold stream. cbn [flat_map stream_el app unstream join_els_map join_element]. fold (stream b). rewrite (IH false Hb). reflexivity.
 Qed.
 
-(* pieces with the stream of a normal list join to that list *)
+(* pieces with the stream of a normal list join to that list (placeables compared after joining) *)
 Lemma join_of_stream a b prev :
-  normal_els b prev -> Forall text_nonempty a -> stream a = stream b -> join_elements a = b.
-Proof. intros Hb Ha Hs. rewrite (join_unstream a Ha), Hs. apply (unstream_normal b prev Hb). Qed.
+  normal_els b prev -> Forall text_nonempty a -> stream a = stream b ->
+  join_pattern (Pattern a) = Pattern (join_els_map b).
+Proof. intros Hb Ha Hs. rewrite join_pattern_els, (join_unstream a Ha), Hs, (unstream_normal b prev Hb). reflexivity. Qed.
 
 Section MLLoop.
 Variable bs : bytes.
 Variable B : nat.            (* the indentation of the pattern = its common indent *)
 Hypothesis HB : 1 <= B.
+
+(* get_placeable, from behind the "{", on a layout of an expression of the class: it returns an expression
+   that joins to it *)
+Hypothesis Hplace : forall e X b1 b2 rest p n, eok e = true -> etext e X -> all_blank b1 -> all_blank b2 ->
+  at_ bs p (b1 ++ X ++ b2 ++ 125%N :: rest) -> 3 * length (b1 ++ X ++ b2 ++ 125%N :: rest) + 8 <= n ->
+  exists e', get_placeable bs n p = Ok e' (S (length (b1 ++ X ++ b2) + p)) /\ join_expr e' = join_expr e.
+
+Lemma after_value_cc T used cc nx : after_value T used cc nx -> cc <= length T.
+Proof.
+  intros [|x c BL next Hx HBL Hn]; [cbn; lia|]. pose proof (blank_lines_length _ _ HBL). rewrite !app_length. lia.
+Qed.
 
 (* ---- what the placeholders pushed so far will finish to ---- *)
 Inductive raw := RText (v : bytes) | RPlace (e : expression).
@@ -350,8 +366,15 @@ Definition finish_out (lnbF i : nat) (r : option raw) : option pattern_element :
   end.
 
 (* whatever the index of the last non-blank element turns out to be; the common indent will be B *)
+(* ... or there will be none, if no text placeholder stands at a line start (a one-line value) *)
+Definition ph_nls (ph : placeholder) : Prop :=
+  match ph with PHText _ _ _ role0 => is_line_start role0 = false | PHPlaceable _ => True end.
 Definition fin_gen (i : nat) (ph : placeholder) (r : option raw) : Prop :=
-  forall lnbF, fin bs lnbF (Some B) i ph (finish_out lnbF i r).
+  forall lnbF, fin bs lnbF (Some B) i ph (finish_out lnbF i r) /\
+               (ph_nls ph -> fin bs lnbF None i ph (finish_out lnbF i r)).
+(* the common indent at the end of the loop *)
+Definition ci_end_ok (ci : option nat) (phs : list placeholder) : Prop :=
+  ci = Some B \/ (ci = None /\ Forall ph_nls phs).
 
 (* phs: newest first (as in the parser state); raws: oldest first *)
 Inductive acc : list placeholder -> list (option raw) -> Prop :=
@@ -402,29 +425,32 @@ Proof.
   rewrite bind_assoc. step (Hph q). unfold bind, ret. destruct o; reflexivity.
 Qed.
 
-Lemma acc_finish phs raws : acc phs raws -> forall lnbF q,
-  finish_elements bs lnbF (Some B) 0 (rev phs) q = Ok (finish_raws lnbF 0 raws) q.
+Lemma acc_finish phs raws : acc phs raws -> forall ci, ci_end_ok ci phs -> forall lnbF q,
+  finish_elements bs lnbF ci 0 (rev phs) q = Ok (finish_raws lnbF 0 raws) q.
 Proof.
-  induction 1 as [|ph phs r raws Hacc IH Hf]; intros lnbF q; [reflexivity|].
-  cbn [rev]. rewrite (finish_elements_snoc lnbF (Some B) (rev phs) 0 _ ph (finish_out lnbF (length phs) r) q (IH lnbF q)).
+  induction 1 as [|ph phs r raws Hacc IH Hf]; intros ci Hci lnbF q; [reflexivity|].
+  assert (Hci' : ci_end_ok ci phs).
+  { destruct Hci as [-> | [-> Hall]]; [left; reflexivity | right; split; [reflexivity|]]. inversion Hall; assumption. }
+  cbn [rev]. rewrite (finish_elements_snoc lnbF ci (rev phs) 0 _ ph (finish_out lnbF (length phs) r) q (IH ci Hci' lnbF q)).
   - rewrite finish_raws_app. cbn [finish_raws]. rewrite (acc_length _ _ Hacc), Nat.add_0_r.
     destruct (finish_out lnbF (length phs) r); reflexivity.
-  - rewrite rev_length, Nat.add_0_r. apply Hf.
+  - rewrite rev_length, Nat.add_0_r. destruct (Hf lnbF) as [F1 F2].
+    destruct Hci as [-> | [-> Hall]]; [exact F1 | apply F2]. inversion Hall; assumption.
 Qed.
 
-Lemma finish_acc extra phs raws ne' lnbF role' q :
-  acc phs raws -> length phs = S lnbF ->
-  finish_pattern bs (PState (extra ++ phs) ne' (Some lnbF) (Some B) role') q =
+Lemma finish_acc extra phs raws ne' lnbF ci role' q :
+  acc phs raws -> ci_end_ok ci phs -> length phs = S lnbF ->
+  finish_pattern bs (PState (extra ++ phs) ne' (Some lnbF) ci role') q =
   Ok (drop_empty_tail (finish_raws lnbF 0 raws)) q.
 Proof.
-  intros Hacc Hlen. unfold finish_pattern. cbn [last_non_blank elements common_indent].
+  intros Hacc Hci Hlen. unfold finish_pattern. cbn [last_non_blank elements common_indent].
   rewrite rev_app_distr. rewrite <- Hlen, <- (rev_length phs), firstn_app_len.
-  step (acc_finish phs raws Hacc lnbF q). reflexivity.
+  step (acc_finish phs raws Hacc ci Hci lnbF q). reflexivity.
 Qed.
 
 (* ---- the stream of what has been pushed ---- *)
 Definition stream_raw (r : option raw) : list (N + expression) :=
-  match r with Some (RText v) => map inl v | Some (RPlace e) => [inr e] | None => [] end.
+  match r with Some (RText v) => map inl v | Some (RPlace e) => [inr (join_expr e)] | None => [] end.
 Definition stream_raws (raws : list (option raw)) : list (N + expression) := flat_map stream_raw raws.
 Definition raw_ne (r : option raw) : Prop :=
   match r with Some (RText v) => v <> [] /\ lf_last v | _ => True end.
@@ -564,14 +590,20 @@ Qed.
 Lemma fin_gen_text i start end_ ind rl q0 v :
   (if is_line_start rl then start + Nat.min ind B else start) = q0 ->
   q0 <> end_ -> slice bs q0 end_ = Done v -> fin_gen i (PHText start end_ ind rl) (Some (RText v)).
-Proof. intros Hq Hne Hs lnbF. apply (fin_text bs lnbF (Some B) i start end_ ind rl q0 v Hq Hne Hs). Qed.
+Proof.
+  intros Hq Hne Hs lnbF. split; [apply (fin_text bs lnbF (Some B) i start end_ ind rl q0 v Hq Hne Hs)|].
+  cbn [ph_nls]. intros Hrl. rewrite Hrl in Hq. apply (fin_text bs lnbF None i start end_ ind rl q0 v); [rewrite Hrl; exact Hq | exact Hne | exact Hs].
+Qed.
 
 Lemma fin_gen_none i start end_ ind rl :
   (if is_line_start rl then start + Nat.min ind B else start) = end_ -> fin_gen i (PHText start end_ ind rl) None.
-Proof. intros Hq lnbF. apply (fin_text_none bs lnbF (Some B) i start end_ ind rl Hq). Qed.
+Proof.
+  intros Hq lnbF. split; [apply (fin_text_none bs lnbF (Some B) i start end_ ind rl Hq)|].
+  cbn [ph_nls]. intros Hrl. rewrite Hrl in Hq. apply (fin_text_none bs lnbF None i start end_ ind rl). rewrite Hrl. exact Hq.
+Qed.
 
 Lemma fin_gen_place i e : fin_gen i (PHPlaceable e) (Some (RPlace e)).
-Proof. intros lnbF. apply fin_placeable. Qed.
+Proof. intros lnbF. split; [|intros _]; apply fin_placeable. Qed.
 
 Lemma slice_lf q next : at_ bs q (10%N :: next) -> starts_char next = true -> slice bs q (S q) = Done [10%N].
 Proof. intros H Hn. apply (at_slice bs q [10%N] next H eq_refl Hn). Qed.
@@ -871,16 +903,22 @@ Proof.
 Qed.
 
 (* a placeable *)
-Lemma placeable_reach i b1 b2 rest phs raws lnb ci rl p n :
-  is_line_start rl = false -> simple_inline i = true -> all_blank b1 -> all_blank b2 ->
-  at_ bs p (123%N :: b1 ++ inline_text i ++ b2 ++ 125%N :: rest) -> length (inline_text i) + 4 <= n -> acc phs raws ->
-  reach (S n) (st_of phs lnb ci rl) p n
-        (st_of (PHPlaceable (Inline i) :: phs) (Some (length phs)) ci Continuation)
-        (length (123%N :: b1 ++ inline_text i ++ b2 ++ [125%N]) + p) /\
-  acc (PHPlaceable (Inline i) :: phs) (raws ++ [Some (RPlace (Inline i))]).
+Lemma placeable_reach e b1 b2 X rest phs raws lnb ci rl p n :
+  is_line_start rl = false -> eok e = true -> etext e X -> all_blank b1 -> all_blank b2 ->
+  at_ bs p (123%N :: b1 ++ X ++ b2 ++ 125%N :: rest) -> 3 * length (b1 ++ X ++ b2 ++ 125%N :: rest) + 8 <= n -> acc phs raws ->
+  exists e', join_expr e' = join_expr e /\
+    reach (S n) (st_of phs lnb ci rl) p n
+          (st_of (PHPlaceable e' :: phs) (Some (length phs)) ci Continuation)
+          (length (123%N :: b1 ++ X ++ b2 ++ [125%N]) + p) /\
+    acc (PHPlaceable e' :: phs) (raws ++ [Some (RPlace e')]).
 Proof.
-  intros Hrl Hi Hb1 Hb2 H Hn Hacc. split.
-  - unfold reach, st_of. rewrite (step_placeable bs i b1 b2 rest phs (length phs) lnb ci rl p n Hrl Hi Hb1 Hb2 H Hn). reflexivity.
+  intros Hrl He HX Hb1 Hb2 H Hn Hacc.
+  destruct (Hplace e X b1 b2 rest (S p) n He HX Hb1 Hb2 (at_cons _ _ _ _ H) Hn) as (e' & Egp & Ej).
+  exists e'. split; [exact Ej|]. split.
+  - unfold reach, st_of. cbn [pattern_loop]. rewrite bind_get_ptr.
+    rewrite (at_ltb _ _ _ _ H). cbn [negb].
+    step (take_byte_if_yes bs p 123 _ H). cbv iota. cbn [role elements n_elements common_indent]. rewrite Hrl.
+    step Egp. f_equal. cbn [length]. rewrite !app_length. cbn [length]. lia.
   - apply acc_push; [exact Hacc | apply fin_gen_place].
 Qed.
 
@@ -898,16 +936,16 @@ Proof.
 Qed.
 
 Definition stream_last (r : raw) (w' : bytes) : list (N + expression) :=
-  match r with RText _ => map inl w' | RPlace e => [inr e] end.
+  match r with RText _ => map inl w' | RPlace e => [inr (join_expr e)] end.
 
 (* the loop has ended; the last placeholder that counts is a placeable, or a text whose trimmed form w' is known *)
-Lemma final_from_acc n st p pfin extra phs raws0 last w' ne' lnbF role' :
-  pattern_loop bs n st p = Ok (PState (extra ++ phs) ne' (Some lnbF) (Some B) role') pfin ->
+Lemma final_from_acc_g n st p pfin extra phs raws0 last w' ne' lnbF ci role' :
+  pattern_loop bs n st p = Ok (PState (extra ++ phs) ne' (Some lnbF) ci role') pfin -> ci_end_ok ci phs ->
   acc phs (raws0 ++ [Some last]) -> length phs = S lnbF -> Forall raw_ne raws0 ->
   match last with RText w => trim_end w = w' /\ trim_end w' = w' /\ w' <> [] /\ lf_last w' | RPlace _ => True end ->
   completes n st p pfin (stream_raws raws0 ++ stream_last last w').
 Proof.
-  intros E Hacc Hlen Hne Hlast.
+  intros E Hcie Hacc Hlen Hne Hlast.
   assert (Hl0 : length raws0 = lnbF).
   { pose proof (acc_length _ _ Hacc) as HL. rewrite app_length in HL. cbn [length] in HL. lia. }
   set (x := match last with RText _ => TextElement w' | RPlace e => PlaceableElement e end).
@@ -916,7 +954,7 @@ Proof.
     unfold x. destruct last as [w|e]; [destruct Hlast as [-> _]|]; reflexivity. }
   destruct (finish_raws_untrimmed lnbF raws0 0 ltac:(lia)) as [Hs0 Hne0].
   exists (finish_raws lnbF 0 raws0 ++ [x]). split; [|split].
-  - step E. rewrite (finish_acc extra phs _ ne' lnbF role' pfin Hacc Hlen), Hfin.
+  - step E. rewrite (finish_acc extra phs _ ne' lnbF ci role' pfin Hacc Hcie Hlen), Hfin.
     assert (Hk : tail_kept (finish_raws lnbF 0 raws0 ++ [x])).
     { apply tail_kept_intro; [destruct (finish_raws lnbF 0 raws0); discriminate|].
       rewrite rev_app_distr. cbn [rev app]. unfold x. destruct last as [w|e]; [|exact Logic.I].
@@ -927,28 +965,36 @@ Proof.
     unfold x. destruct last as [w|e]; [|exact Logic.I]. destruct Hlast as (_ & _ & H3 & H4). split; assumption.
 Qed.
 
+Lemma final_from_acc n st p pfin extra phs raws0 last w' ne' lnbF role' :
+  pattern_loop bs n st p = Ok (PState (extra ++ phs) ne' (Some lnbF) (Some B) role') pfin ->
+  acc phs (raws0 ++ [Some last]) -> length phs = S lnbF -> Forall raw_ne raws0 ->
+  match last with RText w => trim_end w = w' /\ trim_end w' = w' /\ w' <> [] /\ lf_last w' | RPlace _ => True end ->
+  completes n st p pfin (stream_raws raws0 ++ stream_last last w').
+Proof. intros E. apply (final_from_acc_g n st p pfin extra phs raws0 last w' ne' lnbF (Some B) role' E). left. reflexivity. Qed.
+
 
 Lemma ends_nonspace_nonblank c : text_line c -> c <> [] -> ends_nonspace c -> is_nonblank c = true.
 Proof. intros. apply nonblank_last; assumption. Qed.
 
 (* the last text of the pattern, in the middle of a line *)
-Lemma text_final c T used cc nx phs raws lnb rl p n :
+Lemma text_final_g c T used cc nx phs raws lnb ci rl p n :
   inner_text c = true -> ends_nonspace c -> after_value T used cc nx -> at_ bs p (c ++ T) ->
-  is_line_start rl = false -> acc phs raws -> Forall raw_ne raws -> 2 * cc + 4 <= n ->
-  completes n (st_of phs lnb (Some B) rl) p (used + (length c + p)) (stream_raws raws ++ map inl c).
+  is_line_start rl = false -> acc phs raws -> Forall raw_ne raws -> ci_end_ok ci phs -> 2 * cc + 4 <= n ->
+  completes n (st_of phs lnb ci rl) p (used + (length c + p)) (stream_raws raws ++ map inl c).
 Proof.
-  intros Hc Hlast HT H Hrl Hacc Hne Hn.
+  intros Hc Hlast HT H Hrl Hacc Hne Hcie Hn.
   destruct (inner_text_starts c T Hc) as (Hsc & Hline & Hcne).
   destruct (after_value_line_tail T used cc nx HT) as (term & eo & po & R & Hlt).
   destruct (get_text_slice_line bs p c T term eo po R H Hline Hlt) as [Hts _].
   rewrite (ends_nonspace_nonblank c Hline Hcne Hlast) in Hts.
   destruct n as [|n]; [lia|].
   destruct (after_line bs T used cc nx term eo po R (PHText p (eo + (length c + p)) 0 rl :: phs) (S (length phs))
-                       (Some (length phs)) (Some B) (length c + p) n HT Hlt (at_app _ _ _ _ H) ltac:(lia))
+                       (Some (length phs)) ci (length c + p) n HT Hlt (at_app _ _ _ _ H) ltac:(lia))
     as (extra & ne' & role' & E).
   destruct (last_text_slice bs c T used cc nx term eo po R p Hc Hlast HT Hlt H) as [v' [Es Et]].
-  apply (final_from_acc (S n) _ p _ extra (PHText p (eo + (length c + p)) 0 rl :: phs) raws (RText v') c ne' (length phs) role').
-  - unfold st_of. rewrite (step_text bs c T term eo po true phs (length phs) lnb (Some B) rl p n Hrl Hc H Hts). exact E.
+  apply (final_from_acc_g (S n) _ p _ extra (PHText p (eo + (length c + p)) 0 rl :: phs) raws (RText v') c ne' (length phs) ci role').
+  - unfold st_of. rewrite (step_text bs c T term eo po true phs (length phs) lnb ci rl p n Hrl Hc H Hts). exact E.
+  - destruct Hcie as [-> | [-> Hall]]; [left; reflexivity | right; split; [reflexivity|]]. constructor; [exact Hrl | exact Hall].
   - apply acc_push; [exact Hacc|].
     apply (fin_gen_text _ p (eo + (length c + p)) 0 rl p v'); [rewrite Hrl; reflexivity | | exact Es].
     destruct c; [congruence | cbn [length]; lia].
@@ -956,6 +1002,15 @@ Proof.
   - exact Hne.
   - split; [exact Et | split; [apply trim_end_text; assumption | split; [exact Hcne|]]].
     apply no_lf_lf_last, text_line_no_lf, Hline.
+Qed.
+
+Lemma text_final c T used cc nx phs raws lnb rl p n :
+  inner_text c = true -> ends_nonspace c -> after_value T used cc nx -> at_ bs p (c ++ T) ->
+  is_line_start rl = false -> acc phs raws -> Forall raw_ne raws -> 2 * cc + 4 <= n ->
+  completes n (st_of phs lnb (Some B) rl) p (used + (length c + p)) (stream_raws raws ++ map inl c).
+Proof.
+  intros Hc Hlast HT H Hrl Hacc Hne Hn.
+  apply (text_final_g c T used cc nx phs raws lnb (Some B) rl p n Hc Hlast HT H Hrl Hacc Hne (or_introl eq_refl) Hn).
 Qed.
 
 Lemma ml_line_inner l : ml_line l = true -> l <> [] -> inner_text l = true.
@@ -1012,23 +1067,33 @@ Proof.
 Qed.
 
 (* the pattern ends with a placeable *)
+Lemma nil_final_g T used cc nx phs raws0 e lnb ci rl p n :
+  after_value T used cc nx -> at_ bs p T -> is_line_start rl = false ->
+  acc phs (raws0 ++ [Some (RPlace e)]) -> Forall raw_ne raws0 -> ci_end_ok ci phs -> lnb = Some (length phs - 1) -> 2 * cc + 4 <= n ->
+  completes n (st_of phs lnb ci rl) p (used + p) (stream_raws (raws0 ++ [Some (RPlace e)])).
+Proof.
+  intros HT H Hrl Hacc Hne Hcie Hlnb Hn.
+  destruct (after_placeable bs T used cc nx phs (length phs) lnb ci rl p n HT Hrl H Hn) as (extra & ne' & role' & E).
+  assert (Hlen : 1 <= length phs).
+  { pose proof (acc_length _ _ Hacc) as HL. rewrite app_length in HL. cbn [length] in HL. lia. }
+  rewrite stream_raws_app.
+  replace (stream_raws [Some (RPlace e)]) with (stream_last (RPlace e) []) by reflexivity.
+  apply (final_from_acc_g n _ p _ extra phs raws0 (RPlace e) [] ne' (length phs - 1) ci role').
+  - unfold st_of. rewrite E, Hlnb. reflexivity.
+  - exact Hcie.
+  - exact Hacc.
+  - lia.
+  - exact Hne.
+  - exact Logic.I.
+Qed.
+
 Lemma nil_final T used cc nx phs raws0 e lnb rl p n :
   after_value T used cc nx -> at_ bs p T -> is_line_start rl = false ->
   acc phs (raws0 ++ [Some (RPlace e)]) -> Forall raw_ne raws0 -> lnb = Some (length phs - 1) -> 2 * cc + 4 <= n ->
   completes n (st_of phs lnb (Some B) rl) p (used + p) (stream_raws (raws0 ++ [Some (RPlace e)])).
 Proof.
   intros HT H Hrl Hacc Hne Hlnb Hn.
-  destruct (after_placeable bs T used cc nx phs (length phs) lnb (Some B) rl p n HT Hrl H Hn) as (extra & ne' & role' & E).
-  assert (Hlen : 1 <= length phs).
-  { pose proof (acc_length _ _ Hacc) as HL. rewrite app_length in HL. cbn [length] in HL. lia. }
-  rewrite stream_raws_app.
-  replace (stream_raws [Some (RPlace e)]) with (stream_last (RPlace e) []) by reflexivity.
-  apply (final_from_acc n _ p _ extra phs raws0 (RPlace e) [] ne' (length phs - 1) role').
-  - unfold st_of. rewrite E, Hlnb. reflexivity.
-  - exact Hacc.
-  - lia.
-  - exact Hne.
-  - exact Logic.I.
+  apply (nil_final_g T used cc nx phs raws0 e lnb (Some B) rl p n HT H Hrl Hacc Hne (or_introl eq_refl) Hlnb Hn).
 Qed.
 
 
@@ -1059,7 +1124,7 @@ Hypothesis Hend :
   (cont = true /\ (exists rest', Rest = 123%N :: rest') /\
    forall phs' raws' lnb' ci' p' n',
      acc phs' raws' -> Forall raw_ne raws' -> ci_ge ci' -> (ci' = Some B \/ HitR) -> 1 <= length phs' ->
-     at_ bs p' Rest -> length Rest + 2 * cc + 8 <= n' ->
+     at_ bs p' Rest -> 3 * length Rest + 8 <= n' ->
      completes n' (st_of phs' lnb' ci' Continuation) p' pfin (stream_raws raws' ++ Srest)) \/
   (cont = false /\ after_value Rest used cc nx /\ Srest = [] /\ (HitR -> False)).
 
@@ -1105,7 +1170,7 @@ Lemma lines_complete ls TL : cont_layout B cont ls TL -> forall x body, TL = x +
   (cont = false -> pfin = used + (length body + p)) ->
   acc phs raws -> Forall raw_ne raws -> ci_ge ci ->
   (ci = Some B \/ existsb (Nat.eqb 0) (own_indents_lines cont ls) = true \/ HitR) ->
-  at_ bs p (body ++ Rest) -> length (body ++ Rest) + 2 * cc + 8 <= n ->
+  at_ bs p (body ++ Rest) -> 3 * length (body ++ Rest) + 8 <= n ->
   completes n (st_of phs lnb ci LineStart) p pfin (stream_raws raws ++ map inl (jl ls) ++ Srest).
 Proof.
   induction 1 as [| l r x0 s TLr Hbl Hx0 Hs HCr IH | l r x0 TLr Hbl Hx0 HCr IH];
@@ -1199,7 +1264,7 @@ Proof.
       * (* the last line of the pattern *)
         rewrite Hcont in *. destruct (Hlast eq_refl) as [Hlastl Hnb].
         rewrite Hnb in Hshape. rewrite HSrest, app_nil_r.
-        rewrite (Hpfin eq_refl).
+        rewrite (Hpfin eq_refl). pose proof (after_value_cc _ _ _ _ HT) as Hcc.
         apply (ls_text_final l Rest used cc nx phs raws lnb ci p n Hml Hnb Hshape Hlastl HT H'); try assumption; [|nlia].
         destruct Hhit as [-> | [Hex | HR]].
         -- apply ci_min_keep. nlia.
@@ -1270,16 +1335,16 @@ Fixpoint ends_ok (els : list pattern_element) : Prop :=
   end.
 
 Lemma ml_elements_after_text r : ml_elements r true = true ->
-  r = [] \/ exists i r', r = PlaceableElement (Inline i) :: r' /\ simple_inline i = true /\ ml_elements r' false = true.
+  r = [] \/ exists e r', r = PlaceableElement e :: r' /\ eok e = true /\ ml_elements r' false = true.
 Proof.
-  destruct r as [|[v | [sel vs | i]] r']; cbn [ml_elements]; intros H; try discriminate H; [left; reflexivity|].
-  right. apply andb_prop in H as [Hi Hr]. exists i, r'. auto.
+  destruct r as [|[v | e] r']; cbn [ml_elements]; intros H; try discriminate H; [left; reflexivity|].
+  right. apply andb_prop in H as [Hi Hr]. exists e, r'. auto.
 Qed.
 
-Lemma line_layout_placeable_inv_ml i r L : ml_line_layout B (PlaceableElement (Inline i) :: r) L ->
-  exists b1 b2 L2, L = 123%N :: b1 ++ inline_text i ++ b2 ++ 125%N :: L2 /\ all_blank b1 /\ all_blank b2 /\
-                   ml_line_layout B r L2.
-Proof. intros H. inversion H; subst. eauto 8. Qed.
+Lemma line_layout_placeable_inv_ml e r L : ml_line_layout B (PlaceableElement e :: r) L ->
+  exists b1 b2 X L2, L = 123%N :: b1 ++ X ++ b2 ++ 125%N :: L2 /\ all_blank b1 /\ all_blank b2 /\ etext e X /\
+                     ml_line_layout B r L2.
+Proof. intros H. inversion H; subst. eauto 10. Qed.
 
 Lemma completes_k' k n st p n' st' p' pfin S :
   k <= n -> (forall m, reach (k + m) st p m st' p') -> n' = n - k -> completes n' st' p' pfin S -> completes n st p pfin S.
@@ -1293,11 +1358,12 @@ Lemma ml_loop els L : ml_line_layout B els L ->
   acc phs raws -> Forall raw_ne raws -> ci_ge ci ->
   (ci = Some B \/ existsb (Nat.eqb 0) (own_indents els) = true) ->
   (els = [] -> exists raws0 e, raws = raws0 ++ [Some (RPlace e)] /\ lnb = Some (length phs - 1)) ->
-  at_ bs p (L ++ T) -> length (L ++ T) + 2 * cc + 8 <= n ->
+  at_ bs p (L ++ T) -> 3 * length (L ++ T) + 8 <= n ->
   completes n (st_of phs lnb ci rl) p (used + (length L + p)) (stream_raws raws ++ stream els).
 Proof.
-  induction 1 as [| v l0 rest r TL Lr Elines HTL HLr IH | i b1 b2 r Lr Hb1 Hb2 HLr IH];
-    intros prev T used cc nx phs raws lnb ci rl p n Hs Hends HT Hrl Hacc Hne Hci Hhit Hnil H Hn.
+  induction 1 as [| v l0 rest r TL Lr Elines HTL HLr IH | e b1 b2 X r Lr Hb1 Hb2 HX HLr IH];
+    intros prev T used cc nx phs raws lnb ci rl p n Hs Hends HT Hrl Hacc Hne Hci Hhit Hnil H Hn;
+    pose proof (after_value_cc _ _ _ _ HT) as Hcc.
   - (* the pattern ended with a placeable *)
     destruct (Hnil eq_refl) as (raws0 & e & -> & Hlnb).
     assert (Hcib : ci = Some B) by (destruct Hhit as [Hh | Hh]; [exact Hh | discriminate Hh]). subst ci.
@@ -1321,13 +1387,13 @@ Proof.
        forall phs' raws' lnb' ci' p' n',
          acc phs' raws' -> Forall raw_ne raws' -> ci_ge ci' ->
          (ci' = Some B \/ existsb (Nat.eqb 0) (own_indents r) = true) -> 1 <= length phs' ->
-         at_ bs p' Rest -> length Rest + 2 * cc + 8 <= n' ->
+         at_ bs p' Rest -> 3 * length Rest + 8 <= n' ->
          completes n' (st_of phs' lnb' ci' Continuation) p' pfin (stream_raws raws' ++ stream r)) \/
       (cont = false /\ after_value Rest used cc nx /\ stream r = [] /\ (existsb (Nat.eqb 0) (own_indents r) = true -> False))).
     { destruct (ml_elements_after_text r Hr) as [-> | (i & r' & -> & Hi & Hr')].
       - right. inversion HLr; subst. unfold Rest. cbn [app]. repeat split; try assumption. discriminate.
       - left. split; [reflexivity|]. split.
-        + destruct (line_layout_placeable_inv_ml i r' Lr HLr) as (c1 & c2 & L2 & -> & _). unfold Rest. eexists. reflexivity.
+        + destruct (line_layout_placeable_inv_ml i r' Lr HLr) as (c1 & c2 & X2 & L2 & -> & _). unfold Rest. eexists. reflexivity.
         + intros phs' raws' lnb' ci' p' n' Hacc' Hne' Hci' Hhit' Hlen' Hat' Hn'.
           assert (Hp' : p' = length (l0 ++ TL) + p).
           { pose proof (at_length _ _ _ Hat'). pose proof (at_length _ _ _ HRest). nlia. }
@@ -1345,8 +1411,9 @@ Proof.
     rewrite Hstream. clear Hstream.
     assert (HL : at_ bs p (l0 ++ TL ++ Rest)).
     { unfold Rest. rewrite <- !app_assoc in H. exact H. }
-    assert (HnL : length l0 + length TL + length Rest + 2 * cc + 8 <= n).
+    assert (HnL : 3 * (length l0 + length TL + length Rest) + 8 <= n).
     { unfold Rest. rewrite !app_length in Hn. rewrite !app_length. nlia. }
+    assert (HccR : cc <= length Rest) by (unfold Rest; rewrite app_length; nlia).
     destruct rest as [|l1 rest'].
     + (* the text is one line *)
       inversion HTL; subst TL. cbn [app length] in *. rewrite app_nil_r in Ev. subst l0.
@@ -1420,32 +1487,33 @@ Proof.
   - (* a placeable *)
     cbn [ml_elements] in Hs. apply andb_prop in Hs as [Hi Hr].
     destruct n as [|n]; [nlia|].
-    assert (H' : at_ bs p (123%N :: b1 ++ inline_text i ++ b2 ++ 125%N :: Lr ++ T)).
+    assert (H' : at_ bs p (123%N :: b1 ++ X ++ b2 ++ 125%N :: Lr ++ T)).
     { cbn [app] in H. rewrite <- !app_assoc in H. cbn [app] in H. exact H. }
-    assert (HlenL : length (123%N :: b1 ++ inline_text i ++ b2 ++ 125%N :: Lr) =
-                    length (123%N :: b1 ++ inline_text i ++ b2 ++ [125%N]) + length Lr).
+    assert (HlenL : length (123%N :: b1 ++ X ++ b2 ++ 125%N :: Lr) =
+                    length (123%N :: b1 ++ X ++ b2 ++ [125%N]) + length Lr).
     { cbn [length]. rewrite !app_length. cbn [length]. nlia. }
     rewrite app_length, HlenL in Hn.
-    destruct (placeable_reach i b1 b2 (Lr ++ T) phs raws lnb ci rl p n Hrl Hi Hb1 Hb2 H'
-                ltac:(cbn [length] in Hn; rewrite !app_length in Hn; nlia) Hacc) as [Hreach Hacc'].
+    destruct (placeable_reach e b1 b2 X (Lr ++ T) phs raws lnb ci rl p n Hrl Hi HX Hb1 Hb2 H'
+                ltac:(cbn [length] in Hn; rewrite !app_length in Hn |- *; cbn [length] in Hn |- *; rewrite !app_length; nlia) Hacc)
+      as (e' & Ej & Hreach & Hacc').
     apply (completes_reach _ _ _ _ _ _ _ _ Hreach).
-    assert (H2 : at_ bs (length (123%N :: b1 ++ inline_text i ++ b2 ++ [125%N]) + p) (Lr ++ T)).
-    { replace (123%N :: b1 ++ inline_text i ++ b2 ++ 125%N :: Lr ++ T)
-        with ((123%N :: b1 ++ inline_text i ++ b2 ++ [125%N]) ++ Lr ++ T) in H'
+    assert (H2 : at_ bs (length (123%N :: b1 ++ X ++ b2 ++ [125%N]) + p) (Lr ++ T)).
+    { replace (123%N :: b1 ++ X ++ b2 ++ 125%N :: Lr ++ T)
+        with ((123%N :: b1 ++ X ++ b2 ++ [125%N]) ++ Lr ++ T) in H'
         by (cbn [app]; rewrite <- !app_assoc; reflexivity).
       apply (at_app _ _ _ _ H'). }
-    apply (completes_stream _ _ _ _ _ (stream_raws (raws ++ [Some (RPlace (Inline i))]) ++ stream r));
-      [rewrite stream_raws_app, <- app_assoc; reflexivity|].
-    replace (used + (length (123%N :: b1 ++ inline_text i ++ b2 ++ 125%N :: Lr) + p))
-      with (used + (length Lr + (length (123%N :: b1 ++ inline_text i ++ b2 ++ [125%N]) + p))) by (rewrite HlenL; nlia).
+    apply (completes_stream _ _ _ _ _ (stream_raws (raws ++ [Some (RPlace e')]) ++ stream r));
+      [rewrite stream_raws_app, <- app_assoc; unfold stream, stream_raws; cbn [flat_map stream_raw stream_el app]; rewrite Ej; reflexivity|].
+    replace (used + (length (123%N :: b1 ++ X ++ b2 ++ 125%N :: Lr) + p))
+      with (used + (length Lr + (length (123%N :: b1 ++ X ++ b2 ++ [125%N]) + p))) by (rewrite HlenL; nlia).
     assert (Hends' : ends_ok r) by (destruct r; [exact Logic.I | exact Hends]).
-    assert (Hne' : Forall raw_ne (raws ++ [Some (RPlace (Inline i))])).
-    { apply Forall_app. split; [exact Hne | constructor; [first [exact raw_ne_lf | exact Logic.I] | constructor]]. }
-    assert (Hnil' : r = [] -> exists raws0 e, raws ++ [Some (RPlace (Inline i))] = raws0 ++ [Some (RPlace e)] /\
-                                 Some (length phs) = Some (length (PHPlaceable (Inline i) :: phs) - 1)).
-    { intros _. exists raws, (Inline i). split; [reflexivity|]. cbn [length]. f_equal. nlia. }
-    assert (Hn' : length (Lr ++ T) + 2 * cc + 8 <= n) by (rewrite app_length; cbn [length] in Hn; nlia).
-    apply (IH false T used cc nx (PHPlaceable (Inline i) :: phs) (raws ++ [Some (RPlace (Inline i))]) (Some (length phs)) ci
+    assert (Hne' : Forall raw_ne (raws ++ [Some (RPlace e')])).
+    { apply Forall_app. split; [exact Hne | constructor; [exact Logic.I | constructor]]. }
+    assert (Hnil' : r = [] -> exists raws0 e0, raws ++ [Some (RPlace e')] = raws0 ++ [Some (RPlace e0)] /\
+                                 Some (length phs) = Some (length (PHPlaceable e' :: phs) - 1)).
+    { intros _. exists raws, e'. split; [reflexivity|]. cbn [length]. f_equal. nlia. }
+    assert (Hn' : 3 * length (Lr ++ T) + 8 <= n) by (rewrite app_length; cbn [length] in Hn; nlia).
+    apply (IH false T used cc nx (PHPlaceable e' :: phs) (raws ++ [Some (RPlace e')]) (Some (length phs)) ci
               Continuation _ n Hr Hends' HT eq_refl Hacc' Hne' Hci Hhit Hnil' H2 Hn').
 Qed.
 
@@ -1456,11 +1524,11 @@ Lemma ml_loop_block els L : ml_line_layout B els L ->
   els <> [] -> ml_elements els false = true -> ends_ok els -> ml_first_ok els = true ->
   first_byte_ok_for_block (Pattern els) = true ->
   after_value T used cc nx ->
-  at_ bs p (sp B ++ L ++ T) -> length (sp B ++ L ++ T) + 2 * cc + 9 <= n ->
+  at_ bs p (sp B ++ L ++ T) -> 3 * length (sp B ++ L ++ T) + 9 <= n ->
   completes n (st_of [] None None LineStart) p (used + (length (sp B ++ L) + p)) (stream els).
 Proof.
-  intros HL T used cc nx p n Hne Hs Hends Hfirst Hok HT H Hn.
-  destruct HL as [| v l0 rest r TL Lr Elines HTL HLr | i b1 b2 r Lr Hb1 Hb2 HLr]; [congruence| |].
+  intros HL T used cc nx p n Hne Hs Hends Hfirst Hok HT H Hn. pose proof (after_value_cc _ _ _ _ HT) as Hcc.
+  destruct HL as [| v l0 rest r TL Lr Elines HTL HLr | e b1 b2 X r Lr Hb1 Hb2 HX HLr]; [congruence| |].
   - (* the first element is a text: its first line is a line like the others, not indented beyond B *)
     cbn [ml_elements] in Hs. apply andb_prop in Hs as [Hs Hr]. apply andb_prop in Hs as [_ Hv].
     unfold ml_text in Hv. rewrite Elines in Hv. apply andb_prop in Hv as [Hv Hrest]. apply andb_prop in Hv as [Hvne Hl0].
@@ -1493,13 +1561,13 @@ Proof.
        forall phs' raws' lnb' ci' p' n',
          acc phs' raws' -> Forall raw_ne raws' -> ci_ge ci' ->
          (ci' = Some B \/ existsb (Nat.eqb 0) (own_indents r) = true) -> 1 <= length phs' ->
-         at_ bs p' Rest -> length Rest + 2 * cc + 8 <= n' ->
+         at_ bs p' Rest -> 3 * length Rest + 8 <= n' ->
          completes n' (st_of phs' lnb' ci' Continuation) p' pfin (stream_raws raws' ++ stream r)) \/
       (cont = false /\ after_value Rest used cc nx /\ stream r = [] /\ (existsb (Nat.eqb 0) (own_indents r) = true -> False))).
     { destruct (ml_elements_after_text r Hr) as [-> | (i & r' & -> & Hi & Hr')].
       - right. inversion HLr; subst. unfold Rest. cbn [app]. repeat split; try assumption. discriminate.
       - left. split; [reflexivity|]. split.
-        + destruct (line_layout_placeable_inv_ml i r' Lr HLr) as (c1 & c2 & L2 & -> & _). unfold Rest. eexists. reflexivity.
+        + destruct (line_layout_placeable_inv_ml i r' Lr HLr) as (c1 & c2 & X2 & L2 & -> & _). unfold Rest. eexists. reflexivity.
         + intros phs' raws' lnb' ci' p' n' Hacc' Hne' Hci' Hhit' Hlen' Hat' Hn'.
           assert (Hp' : p' = length (sp B ++ l0 ++ TL) + p).
           { pose proof (at_length _ _ _ Hat'). pose proof (at_length _ _ _ HRest). nlia. }
@@ -1514,8 +1582,9 @@ Proof.
     rewrite Hstream. clear Hstream.
     assert (HL : at_ bs p (sp B ++ l0 ++ TL ++ Rest)).
     { unfold Rest. rewrite <- !app_assoc in H. exact H. }
-    assert (HnL : B + length l0 + length TL + length Rest + 2 * cc + 9 <= n).
+    assert (HnL : 3 * (B + length l0 + length TL + length Rest) + 9 <= n).
     { unfold Rest. rewrite !app_length, sp_length in Hn. rewrite !app_length. nlia. }
+    assert (HccR : cc <= length Rest) by (unfold Rest; rewrite app_length; nlia).
     assert (Hacc0 : acc [] []) by constructor.
     assert (Hci0 : ci_min None (B + leading_spaces l0) = Some B) by (rewrite Hls0, Nat.add_0_r; reflexivity).
     destruct rest as [|l1 rest'].
@@ -1572,14 +1641,14 @@ Proof.
       * rewrite app_length. nlia.
   - (* the first element is a placeable: the indentation finishes to nothing *)
     destruct n as [|n]; [nlia|].
-    assert (H' : at_ bs p (sp B ++ sp 0 ++ 123%N :: (b1 ++ inline_text i ++ b2 ++ 125%N :: Lr) ++ T)) by exact H.
+    assert (H' : at_ bs p (sp B ++ sp 0 ++ 123%N :: (b1 ++ X ++ b2 ++ 125%N :: Lr) ++ T)) by exact H.
     destruct (ls_indent_reach 0 _ [] [] None None p n H' acc_nil) as [Hreach Hacc'].
     apply (completes_reach _ _ _ _ _ _ _ _ Hreach).
-    assert (HL' : ml_line_layout B (PlaceableElement (Inline i) :: r) (123%N :: b1 ++ inline_text i ++ b2 ++ 125%N :: Lr))
+    assert (HL' : ml_line_layout B (PlaceableElement e :: r) (123%N :: b1 ++ X ++ b2 ++ 125%N :: Lr))
       by (constructor; assumption).
     rewrite Nat.add_0_r in *.
-    replace (used + (length (sp B ++ 123%N :: b1 ++ inline_text i ++ b2 ++ 125%N :: Lr) + p))
-      with (used + (length (123%N :: b1 ++ inline_text i ++ b2 ++ 125%N :: Lr) + (B + p)))
+    replace (used + (length (sp B ++ 123%N :: b1 ++ X ++ b2 ++ 125%N :: Lr) + p))
+      with (used + (length (123%N :: b1 ++ X ++ b2 ++ 125%N :: Lr) + (B + p)))
       by (rewrite (app_length (sp B)), sp_length; nlia).
     apply (ml_loop _ _ HL' false T used cc nx _ ([] ++ [None]) None (ci_min None B) Continuation (B + p) n Hs Hends HT eq_refl Hacc').
     + constructor; [first [exact raw_ne_lf | exact Logic.I] | constructor].
@@ -1588,6 +1657,83 @@ Proof.
     + discriminate.
     + apply at_app in H. rewrite sp_length in H. exact H.
     + rewrite (app_length (sp B)), sp_length in Hn. nlia.
+Qed.
+
+(* ---- a value without a line break, on the line of the "=": no text placeholder at a line start, so the
+        common indent stays undetermined ---- *)
+Lemma ol_loop els L : ml_line_layout B els L -> has_lf els = false ->
+  forall prev T used cc nx phs raws lnb rl p n,
+  ml_elements els prev = true -> ends_ok els -> after_value T used cc nx -> is_line_start rl = false ->
+  acc phs raws -> Forall raw_ne raws -> Forall ph_nls phs ->
+  (els = [] -> exists raws0 e, raws = raws0 ++ [Some (RPlace e)] /\ lnb = Some (length phs - 1)) ->
+  at_ bs p (L ++ T) -> 3 * length (L ++ T) + 8 <= n ->
+  completes n (st_of phs lnb None rl) p (used + (length L + p)) (stream_raws raws ++ stream els).
+Proof.
+  induction 1 as [| v l0 rest r TL Lr Elines HTL HLr IH | e b1 b2 X r Lr Hb1 Hb2 HX HLr IH];
+    intros Hno prev T used cc nx phs raws lnb rl p n Hs Hends HT Hrl Hacc Hne Hnls Hnil H Hn;
+    pose proof (after_value_cc _ _ _ _ HT) as Hcc.
+  - destruct (Hnil eq_refl) as (raws0 & e & -> & Hlnb).
+    cbn [app length Nat.add] in *. unfold stream. cbn [flat_map]. rewrite app_nil_r.
+    apply Forall_app in Hne as [Hne0 _].
+    apply (nil_final_g T used cc nx phs raws0 e lnb None rl p n HT H Hrl Hacc Hne0); [right; split; [reflexivity | exact Hnls] | exact Hlnb | nlia].
+  - cbn [has_lf existsb] in Hno. apply orb_false_elim in Hno as [Hno1 Hno2].
+    assert (El : lines_of v = [v]) by (unfold lines_of; rewrite (no_lf_lines_of v [] Hno1); reflexivity).
+    rewrite El in Elines. injection Elines as <- <-. inversion HTL; subst TL. cbn [app] in *.
+    cbn [ml_elements] in Hs. apply andb_prop in Hs as [Hs Hr]. apply andb_prop in Hs as [_ Hv].
+    unfold ml_text in Hv. rewrite El in Hv. apply andb_prop in Hv as [Hv _]. apply andb_prop in Hv as [Hvne Hml].
+    assert (Hvne' : v <> []) by (destruct v; [discriminate Hvne | discriminate]).
+    assert (Hin : inner_text v = true) by (apply ml_line_inner; assumption).
+    assert (Hstream : stream (TextElement v :: r) = map inl v ++ stream r) by reflexivity.
+    rewrite Hstream. clear Hstream.
+    destruct (ml_elements_after_text r Hr) as [-> | (e & r' & -> & He & Hr')].
+    + inversion HLr; subst Lr. rewrite !app_nil_r in *. cbn [ends_ok] in Hends. rewrite El in Hends. cbn [last] in Hends.
+      destruct Hends as [Hlastv _]. unfold stream. cbn [flat_map]. rewrite ?app_nil_r. rewrite app_length in Hn.
+      apply (text_final_g v T used cc nx phs raws lnb None rl p n Hin Hlastv HT H Hrl Hacc Hne); [right; split; [reflexivity | exact Hnls] | nlia].
+    + destruct (line_layout_placeable_inv_ml e r' Lr HLr) as (c1 & c2 & X2 & L2 & -> & _).
+      destruct n as [|n]; [nlia|]. rewrite <- app_assoc in H.
+      destruct (text_place_reach v _ phs raws lnb None rl p n Hin H Hrl Hacc) as (Hreach & Hacc' & Hrne).
+      apply (completes_reach _ _ _ _ _ _ _ _ Hreach).
+      apply (completes_stream _ _ _ _ _ (stream_raws (raws ++ [Some (RText v)]) ++ stream (PlaceableElement e :: r')));
+        [rewrite stream_raws_app, <- app_assoc; unfold stream_raws; cbn [flat_map stream_raw]; rewrite app_nil_r; reflexivity|].
+      replace (used + (length (v ++ 123%N :: c1 ++ X2 ++ c2 ++ 125%N :: L2) + p))
+        with (used + (length (123%N :: c1 ++ X2 ++ c2 ++ 125%N :: L2) + (length v + p))) by (rewrite app_length; nlia).
+      apply (IH Hno2 true T used cc nx _ _ _ Continuation _ n Hr Hends HT eq_refl Hacc').
+      * apply Forall_app. split; [exact Hne | constructor; [exact Hrne | constructor]].
+      * constructor; [exact Hrl | exact Hnls].
+      * discriminate.
+      * apply (at_app _ _ _ _ H).
+      * assert (Hlenv : 1 <= length v) by (destruct v; [congruence | cbn [length]; nlia]).
+        remember (123%N :: c1 ++ X2 ++ c2 ++ 125%N :: L2) as W. repeat rewrite app_length in Hn. repeat rewrite app_length. nlia.
+  - cbn [has_lf existsb orb] in Hno.
+    cbn [ml_elements] in Hs. apply andb_prop in Hs as [Hi Hr].
+    destruct n as [|n]; [nlia|].
+    assert (H' : at_ bs p (123%N :: b1 ++ X ++ b2 ++ 125%N :: Lr ++ T)).
+    { cbn [app] in H. rewrite <- !app_assoc in H. cbn [app] in H. exact H. }
+    assert (HlenL : length (123%N :: b1 ++ X ++ b2 ++ 125%N :: Lr) =
+                    length (123%N :: b1 ++ X ++ b2 ++ [125%N]) + length Lr).
+    { cbn [length]. rewrite !app_length. cbn [length]. nlia. }
+    rewrite app_length, HlenL in Hn.
+    destruct (placeable_reach e b1 b2 X (Lr ++ T) phs raws lnb None rl p n Hrl Hi HX Hb1 Hb2 H'
+                ltac:(cbn [length] in Hn; rewrite !app_length in Hn |- *; cbn [length] in Hn |- *; rewrite !app_length; nlia) Hacc)
+      as (e' & Ej & Hreach & Hacc').
+    apply (completes_reach _ _ _ _ _ _ _ _ Hreach).
+    assert (H2 : at_ bs (length (123%N :: b1 ++ X ++ b2 ++ [125%N]) + p) (Lr ++ T)).
+    { replace (123%N :: b1 ++ X ++ b2 ++ 125%N :: Lr ++ T)
+        with ((123%N :: b1 ++ X ++ b2 ++ [125%N]) ++ Lr ++ T) in H'
+        by (cbn [app]; rewrite <- !app_assoc; reflexivity).
+      apply (at_app _ _ _ _ H'). }
+    apply (completes_stream _ _ _ _ _ (stream_raws (raws ++ [Some (RPlace e')]) ++ stream r));
+      [rewrite stream_raws_app, <- app_assoc; unfold stream, stream_raws; cbn [flat_map stream_raw stream_el app]; rewrite Ej; reflexivity|].
+    replace (used + (length (123%N :: b1 ++ X ++ b2 ++ 125%N :: Lr) + p))
+      with (used + (length Lr + (length (123%N :: b1 ++ X ++ b2 ++ [125%N]) + p))) by (rewrite HlenL; nlia).
+    assert (Hends' : ends_ok r) by (destruct r; [exact Logic.I | exact Hends]).
+    apply (IH Hno false T used cc nx (PHPlaceable e' :: phs) (raws ++ [Some (RPlace e')]) (Some (length phs))
+              Continuation _ n Hr Hends' HT eq_refl Hacc').
+    + apply Forall_app. split; [exact Hne | constructor; [exact Logic.I | constructor]].
+    + constructor; [exact Logic.I | exact Hnls].
+    + intros _. exists raws, e'. split; [reflexivity|]. cbn [length]. f_equal. nlia.
+    + exact H2.
+    + rewrite app_length. cbn [length] in Hn. nlia.
 Qed.
 
 End MLLoop.
@@ -1615,48 +1761,6 @@ Lemma ml_text_no_lf c v : ml_text c v = true -> existsb (N.eqb 10) v = false -> 
 Proof.
   unfold ml_text. intros H Hno. rewrite (lines_of_no_lf v Hno) in H. apply andb_prop in H as [H _].
   apply andb_prop in H as [Hne Hl]. apply ml_line_inner; [exact Hl|]. destruct v; [discriminate Hne | discriminate].
-Qed.
-
-Lemma ml_elements_simple els : forall prev, ml_elements els prev = true -> has_lf els = false ->
-  simple_elements els prev = true.
-Proof.
-  induction els as [|el r IH]; intros prev Hs Hno; [reflexivity|].
-  cbn [has_lf existsb] in Hno. apply orb_false_elim in Hno as [Hno1 Hno2].
-  destruct el as [v | [sel vs | i]]; cbn [ml_elements] in Hs; try discriminate Hs; cbn [simple_elements].
-  - apply andb_prop in Hs as [Hs Hr]. apply andb_prop in Hs as [Hp Hv].
-    rewrite Hp, (ml_text_no_lf _ v Hv Hno1). apply (IH true Hr Hno2).
-  - apply andb_prop in Hs as [Hi Hr]. rewrite Hi. apply (IH false Hr Hno2).
-Qed.
-
-Lemma ml_line_layout_simple B els L : ml_line_layout B els L -> has_lf els = false -> line_layout els L.
-Proof.
-  induction 1 as [| v l0 rest r TL L El HTL HL IH | i b1 b2 r L Hb1 Hb2 HL IH]; intros Hno.
-  - constructor.
-  - cbn [has_lf existsb] in Hno. apply orb_false_elim in Hno as [Hno1 Hno2].
-    rewrite (lines_of_no_lf v Hno1) in El. injection El as <- <-. inversion HTL; subst.
-    cbn [app]. apply ll_text. apply IH, Hno2.
-  - cbn [has_lf existsb orb] in Hno. apply ll_placeable; try assumption. apply IH, Hno.
-Qed.
-
-Lemma ml_pattern_simple els : ml_pattern (Pattern els) = true -> has_lf els = false ->
-  simple_pattern (Pattern els) = true.
-Proof.
-  intros Hp Hno. destruct (ml_pattern_parts els Hp) as (Hne & Hs & Hf & Hl & _).
-  unfold simple_pattern. rewrite (ml_elements_simple els false Hs Hno).
-  assert (H1 : first_ok els = true).
-  { unfold ml_first_ok in Hf. unfold first_ok. destruct els as [|[[|b t]|e] r]; try reflexivity.
-    apply andb_prop in Hf as [Hf _]. exact Hf. }
-  assert (H2 : last_ok els = true).
-  { unfold ml_last_ok in Hl. unfold last_ok. destruct (rev els) as [|[v|e] r]; try reflexivity.
-    apply andb_prop in Hl as [Hl _]. exact Hl. }
-  rewrite H1, H2. destruct els; [congruence | reflexivity].
-Qed.
-
-Lemma ml_value_layout_simple els V : ml_value_layout els V -> has_lf els = false -> value_layout els V.
-Proof.
-  intros [k B L HB HL | k x c BL B L Hok Hx HBL HB HL] Hno.
-  - apply vl_inline. apply (ml_line_layout_simple B els L HL Hno).
-  - apply (vl_block els k x c BL B L); try assumption. apply (ml_line_layout_simple B els L HL Hno).
 Qed.
 
 (* ---- the end of the last line ---- *)
@@ -1709,7 +1813,7 @@ Proof.
     { unfold ml_last_ok in *. cbn [rev] in Hl |- *. destruct (rev r2 ++ [el2]) eqn:E; [destruct (rev r2); discriminate|].
       cbn [app] in Hl. exact Hl. }
     assert (Hs' : exists prev', ml_elements (el2 :: r2) prev' = true).
-    { destruct el as [v | [sel vs | i]]; cbn [ml_elements] in Hs; try discriminate Hs.
+    { destruct el as [v | e]; cbn [ml_elements] in Hs.
       - apply andb_prop in Hs as [_ Hr]. eauto.
       - apply andb_prop in Hs as [_ Hr]. eauto. }
     destruct Hs' as [prev' Hs']. pose proof (IH prev' Hs' Hl') as Hr'. destruct el; exact Hr'.
@@ -1725,29 +1829,30 @@ Qed.
 Lemma ml_elements_normal els : forall prev, ml_elements els prev = true -> normal_els els prev.
 Proof.
   induction els as [|el r IH]; intros prev Hs; [exact Logic.I|].
-  destruct el as [v | [sel vs | i]]; cbn [ml_elements] in Hs; try discriminate Hs; cbn [normal_els].
+  destruct el as [v | e]; cbn [ml_elements] in Hs; cbn [normal_els].
   - apply andb_prop in Hs as [Hs Hr]. apply andb_prop in Hs as [Hp Hv].
     split; [apply negb_true_iff, Hp | split; [apply (ml_text_ne _ v Hv) | apply (IH true Hr)]].
   - apply andb_prop in Hs as [_ Hr]. apply (IH false Hr).
 Qed.
 
 Lemma ml_elements_placeables els : forall prev, ml_elements els prev = true ->
-  forall e, In (PlaceableElement e) els -> exists i, e = Inline i /\ simple_inline i = true.
+  forall e, In (PlaceableElement e) els -> eok e = true.
 Proof.
   induction els as [|el r IH]; intros prev Hs e Hin; [destruct Hin|].
-  destruct el as [v | [sel vs | i]]; cbn [ml_elements] in Hs; try discriminate Hs.
+  destruct el as [v | e0]; cbn [ml_elements] in Hs.
   - apply andb_prop in Hs as [_ Hr]. destruct Hin as [E | Hin]; [discriminate E | apply (IH true Hr e Hin)].
-  - apply andb_prop in Hs as [Hi Hr]. destruct Hin as [E | Hin]; [injection E as <-; eauto | apply (IH false Hr e Hin)].
+  - apply andb_prop in Hs as [Hi Hr]. destruct Hin as [E | Hin]; [injection E as <-; exact Hi | apply (IH false Hr e Hin)].
 Qed.
 
-Lemma placeable_in_stream e a : In (PlaceableElement e) a <-> In (inr e) (stream a).
+Lemma placeable_in_stream x a : In (inr x) (stream a) <-> exists e, In (PlaceableElement e) a /\ join_expr e = x.
 Proof.
-  induction a as [|el r IH]; [split; intros []|]. unfold stream in *. cbn [flat_map]. rewrite in_app_iff.
+  induction a as [|el r IH]; [split; [intros [] | intros (e & [] & _)]|]. unfold stream in *. cbn [flat_map]. rewrite in_app_iff, IH.
   split.
-  - intros [E | Hin]; [subst el; left; left; reflexivity | right; apply IH, Hin].
-  - intros [Hin | Hin]; [|right; apply IH, Hin]. left. destruct el as [v|e']; cbn [stream_el] in Hin.
+  - intros [Hin | (e & He & Ex)]; [|exists e; split; [right; exact He | exact Ex]].
+    destruct el as [v|e']; cbn [stream_el] in Hin.
     + apply in_map_iff in Hin as (b & E & _). discriminate E.
-    + destruct Hin as [E | []]. injection E as ->. reflexivity.
+    + destruct Hin as [E | []]. injection E as <-. exists e'. split; [left; reflexivity | reflexivity].
+  - intros (e & [-> | He] & Ex); [left; cbn [stream_el]; left; rewrite Ex; reflexivity | right; exists e; auto].
 Qed.
 
 Lemma join_els_map_id l : (forall e, In (PlaceableElement e) l -> join_expr e = e) -> join_els_map l = l.
@@ -1756,31 +1861,24 @@ Proof.
   destruct el as [v|e]; [reflexivity|]. cbn [join_element]. rewrite (H e (or_introl eq_refl)). reflexivity.
 Qed.
 
+(* the expressions of the class are in joined form *)
+Hypothesis Hjoin_e : forall e, eok e = true -> join_expr e = e.
+
+Lemma ml_elements_join_map els prev : ml_elements els prev = true -> join_els_map els = els.
+Proof. intros Hs. apply join_els_map_id. intros e He. apply Hjoin_e, (ml_elements_placeables els prev Hs e He). Qed.
+
 Lemma stream_jrel els' els : ml_elements els false = true -> stream els' = stream els -> Forall text_ok els' ->
   jrel els' els.
 Proof.
-  intros Hs Hst Hok. pose proof (Forall_impl _ text_ok_nonempty Hok) as Hne. unfold jrel. rewrite join_pattern_els. f_equal.
-  rewrite join_els_map_id.
-  - apply (join_of_stream els' els false (ml_elements_normal els false Hs) Hne Hst).
-  - intros e He. apply placeable_in_stream in He. rewrite Hst in He. apply placeable_in_stream in He.
-    destruct (ml_elements_placeables els false Hs e He) as (i & -> & Hi).
-    change (join_expr (Inline i)) with (Inline (join_inline i)). rewrite (simple_inline_join i Hi). reflexivity.
+  intros Hs Hst Hok. pose proof (Forall_impl _ text_ok_nonempty Hok) as Hne. unfold jrel.
+  rewrite (join_of_stream els' els false (ml_elements_normal els false Hs) Hne Hst), (ml_elements_join_map els false Hs).
+  reflexivity.
 Qed.
 
 (* the parser's elements join to the printed ones (they are the same sequence of text bytes and placeables),
    and each is (part of) one line *)
 Definition srel (els' els : list pattern_element) : Prop :=
   jrel els' els /\ Forall text_ok els' /\ stream els' = stream els.
-
-Lemma simple_elements_text_ok els : forall prev, simple_elements els prev = true -> Forall text_ok els.
-Proof.
-  induction els as [|el r IH]; intros prev Hs; [constructor|].
-  destruct el as [v | [sel vs | i]]; cbn [simple_elements] in Hs; try discriminate Hs.
-  - apply andb_prop in Hs as [Hs Hr]. apply andb_prop in Hs as [_ Hv].
-    destruct (inner_text_starts v [] Hv) as (_ & Hline & Hne).
-    constructor; [split; [exact Hne | apply no_lf_lf_last, text_line_no_lf, Hline] | apply (IH true Hr)].
-  - apply andb_prop in Hs as [_ Hr]. constructor; [exact Logic.I | apply (IH false Hr)].
-Qed.
 
 (* ---- the first bytes of a layout ---- *)
 Lemma ml_line_layout_head B els L prev T : ml_line_layout B els L -> els <> [] -> ml_elements els prev = true ->
@@ -1802,30 +1900,32 @@ Proof.
   - cbn [app]. split; [reflexivity | split; reflexivity].
 Qed.
 
+(* get_placeable on the layouts of the class, on every input *)
+Hypothesis Hplace_all : forall bs e X b1 b2 rest p n, eok e = true -> etext e X -> all_blank b1 -> all_blank b2 ->
+  at_ bs p (b1 ++ X ++ b2 ++ 125%N :: rest) -> 3 * length (b1 ++ X ++ b2 ++ 125%N :: rest) + 8 <= n ->
+  exists e', get_placeable bs n p = Ok e' (S (length (b1 ++ X ++ b2) + p)) /\ join_expr e' = join_expr e.
+
 Lemma get_pattern_ml bs els V T used c nx p n :
   ml_pattern (Pattern els) = true -> ml_value_layout els V -> after_value T used c nx -> at_ bs p (V ++ T) ->
-  length (V ++ T) + 2 * c + 12 <= n ->
+  3 * length (V ++ T) + 12 <= n ->
   exists els', get_pattern bs n p = Ok (Some (Pattern els')) (used + (length V + p)) /\ srel els' els.
 Proof.
   intros Hp HV HT H Hn. destruct (ml_pattern_parts els Hp) as (Hne & Hs & Hf & Hl & Hhit).
-  destruct Hhit as [Hno | Hhit].
-  { (* one line *)
-    exists els. split; [|split; [|split]].
-    - apply (get_pattern_value bs els V T used c nx p n (ml_pattern_simple els Hp Hno)
-               (ml_value_layout_simple els V HV Hno) HT H). rewrite app_length in Hn. nlia.
-    - apply (simple_pattern_join (Pattern els)), (ml_pattern_simple els Hp Hno).
-    - apply (simple_elements_text_ok els false (ml_elements_simple els false Hs Hno)).
-    - reflexivity. }
   pose proof (ends_ok_of_last els false Hs Hl) as Hends.
   destruct n as [|n]; [nlia|]. rewrite get_pattern_S.
   destruct HV as [k B L HB HL | k x c' BL B L Hok Hx HBL HB HL].
   - destruct (ml_line_layout_head B els L false T HL Hne Hs Hf) as (Hh1 & Hh2 & Hh3).
     rewrite <- app_assoc in H.
     pose proof (at_app _ _ _ _ H) as H1. rewrite sp_length in H1.
-    destruct (ml_loop bs B HB els L HL false T used c nx [] [] None None InitialLineStart (k + p) n
-                Hs Hends HT eq_refl (acc_nil bs B) (Forall_nil _) Logic.I (or_intror Hhit)
-                ltac:(intros E; congruence) H1
-                ltac:(rewrite !app_length, sp_length in Hn; rewrite app_length; nlia)) as (els' & E & Hst & Hnee).
+    assert (Hloop : completes bs n (st_of [] None None InitialLineStart) (k + p) (used + (length L + (k + p))) (stream els)).
+    { destruct Hhit as [Hno | Hhit].
+      - apply (ol_loop bs B HB (Hplace_all bs) els L HL Hno false T used c nx [] [] None InitialLineStart (k + p) n
+                 Hs Hends HT eq_refl (acc_nil bs B) (Forall_nil _) (Forall_nil _) ltac:(intros E; congruence) H1).
+        rewrite !app_length, sp_length in Hn. rewrite app_length. nlia.
+      - apply (ml_loop bs B HB (Hplace_all bs) els L HL false T used c nx [] [] None None InitialLineStart (k + p) n
+                 Hs Hends HT eq_refl (acc_nil bs B) (Forall_nil _) Logic.I (or_intror Hhit) ltac:(intros E; congruence) H1).
+        rewrite !app_length, sp_length in Hn. rewrite app_length. nlia. }
+    destruct Hloop as (els' & E & Hst & Hnee).
     exists els'. split; [|split; [apply (stream_jrel els' els Hs Hst Hnee) | split; [exact Hnee | exact Hst]]].
     step (skip_blank_inline_sp bs p k (L ++ T) H Hh1).
     step (skip_eol_none bs (k + p) (L ++ T) H1 Hh2). rewrite bind_ret.
@@ -1839,7 +1939,7 @@ Proof.
     assert (Hnb : no_blank_line_head (sp B ++ L ++ T)) by (apply no_blank_line_head_sp; assumption).
     pose proof (at_app _ _ _ _ H2) as H3.
     set (p0 := length BL + (length x + (k + p))) in *.
-    destruct (ml_loop_block bs B HB els L HL T used c nx p0 n Hne Hs Hends Hf Hok HT H3
+    destruct (ml_loop_block bs B HB (Hplace_all bs) els L HL T used c nx p0 n Hne Hs Hends Hf Hok HT H3
                 ltac:(rewrite !app_length, !sp_length in Hn; rewrite !app_length, sp_length; nlia)) as (els' & E & Hst & Hnee).
     exists els'. split; [|split; [apply (stream_jrel els' els Hs Hst Hnee) | split; [exact Hnee | exact Hst]]].
     step (skip_blank_inline_sp bs p k _ H Hhx).
@@ -2041,7 +2141,7 @@ Lemma skeleton_rest els : forall prev, ml_elements els prev = true ->
 Proof.
   induction els as [|el r IH]; intros prev Hs; [split; reflexivity|].
   rewrite sk_cons.
-  destruct el as [v | [sel vs | i]]; cbn [ml_elements] in Hs; try discriminate Hs.
+  destruct el as [v | e]; cbn [ml_elements] in Hs.
   - apply andb_prop in Hs as [Hs Hr]. apply andb_prop in Hs as [_ Hv].
     destruct (IH true Hr) as [I1 I2].
     unfold ml_text in Hv. destruct (lines_of v) as [|l0 vr] eqn:El; [discriminate Hv|].
@@ -2102,18 +2202,21 @@ Proof.
   apply (Forall_impl _ (fun l Hl => proj1 (andb_prop _ _ Hl)) Hall).
 Qed.
 
+(* the expressions of the class are well-formed *)
+Hypothesis Hwf_e : forall e, eok e = true -> wf_expr e = true /\ lines_ok_expr e = true.
+
 Lemma ml_elements_wf els : forall prev, ml_elements els prev = true ->
   wf_els els prev = true /\ lines_ok_els els = true.
 Proof.
   induction els as [|el r IH]; intros prev Hs; [split; reflexivity|].
-  destruct el as [v | [sel vs | i]]; cbn [ml_elements] in Hs; try discriminate Hs.
+  destruct el as [v | e]; cbn [ml_elements] in Hs.
   - apply andb_prop in Hs as [Hs Hr]. apply andb_prop in Hs as [Hp Hv].
     destruct (IH true Hr) as [IH1 IH2].
     cbn [wf_els lines_ok_els]. rewrite Hp, IH1, (ml_text_bytes _ v Hv). split; [|exact IH2].
     pose proof (ml_text_ne _ v Hv) as Hne. destruct v; [congruence | reflexivity].
   - apply andb_prop in Hs as [Hi Hr]. destruct (IH false Hr) as [IH1 IH2].
-    destruct (simple_inline_wf i Hi) as [W1 W2].
-    cbn [wf_els lines_ok_els lines_ok_expr]. rewrite W1, W2, IH1, IH2. split; reflexivity.
+    destruct (Hwf_e e Hi) as [W1 W2].
+    cbn [wf_els lines_ok_els]. rewrite W1, W2, IH1, IH2. split; reflexivity.
 Qed.
 
 (* ---- the first and the last byte of the skeleton ---- *)
@@ -2121,7 +2224,7 @@ Lemma sk_first els : els <> [] -> ml_elements els false = true -> ml_first_ok el
   exists b t, sk els = b :: t /\ N.eqb b 32 = false /\ N.eqb b 10 = false.
 Proof.
   intros Hne Hs Hf. destruct els as [|el r]; [congruence|]. rewrite sk_cons.
-  destruct el as [v | [sel vs | i]]; cbn [ml_elements] in Hs; try discriminate Hs.
+  destruct el as [v | e]; cbn [ml_elements] in Hs.
   - apply andb_prop in Hs as [Hs _]. apply andb_prop in Hs as [_ Hv]. pose proof (ml_text_ne _ v Hv) as Hvne.
     destruct v as [|b t]; [congruence|]. cbn [ml_first_ok] in Hf. apply andb_prop in Hf as [H32 H10].
     apply negb_true_iff in H32, H10. exists b. eexists. split; [reflexivity | split; assumption].
@@ -2136,7 +2239,7 @@ Proof.
   set (piece := match el with TextElement v => v | PlaceableElement _ => [123%N] end).
   assert (Hpiece : piece <> [] /\
                    (r = [] -> N.eqb (last piece 0%N) 32 = false /\ N.eqb (last piece 0%N) 10 = false)).
-  { unfold piece. destruct el as [v | [sel vs | i]]; cbn [ml_elements] in Hs; try discriminate Hs.
+  { unfold piece. destruct el as [v | e]; cbn [ml_elements] in Hs.
     - apply andb_prop in Hs as [Hs _]. apply andb_prop in Hs as [_ Hv]. split; [apply (ml_text_ne _ v Hv)|].
       intros ->. cbn [ml_last_ok rev app] in Hl. apply andb_prop in Hl as [H32 H10].
       apply negb_true_iff in H32, H10. split; assumption.
@@ -2145,7 +2248,7 @@ Proof.
   destruct r as [|el2 r2].
   - change (sk []) with (@nil N). rewrite app_nil_r. split; [exact Hp1 | apply Hp2; reflexivity].
   - assert (Hs' : exists prev', ml_elements (el2 :: r2) prev' = true).
-    { destruct el as [v | [sel vs | i]]; cbn [ml_elements] in Hs; try discriminate Hs.
+    { destruct el as [v | e]; cbn [ml_elements] in Hs.
       - apply andb_prop in Hs as [_ Hs]. exists true. exact Hs.
       - apply andb_prop in Hs as [_ Hs]. exists false. exact Hs. }
     destruct Hs' as [prev' Hs'].
@@ -2215,65 +2318,23 @@ Proof.
   intros els Hp. apply ml_pattern_wf, Hp.
 Qed.
 
-(* the one-line fragment of RoundTrip.v is inside *)
-Lemma inner_text_ml c v : inner_text v = true -> ml_text c v = true /\ existsb (N.eqb 10) v = false.
+(* ---- the patterns of the fragment are in joined form ---- *)
+Lemma ml_elements_join els prev : ml_elements els prev = true -> join_elements els = els.
 Proof.
-  intros Hv. destruct (inner_text_starts v [] Hv) as (Hsc & Hline & Hne). rewrite app_nil_r in Hsc.
-  pose proof (text_line_no_lf v Hline) as Hno. split; [|exact Hno].
-  unfold ml_text. rewrite (lines_of_no_lf v Hno). cbn [cont_lines_ok]. rewrite andb_true_r.
-  unfold ml_line. unfold text_line in Hline. rewrite Hline, Hsc. destruct v; [congruence | reflexivity].
+  intros Hs. pose proof (ml_elements_normal els prev Hs) as Hn.
+  assert (Hne : Forall text_nonempty els).
+  { clear Hs. revert prev Hn. induction els as [|el r IH]; intros prev Hn; [constructor|].
+    destruct el as [v|e]; cbn [normal_els] in Hn.
+    - destruct Hn as (_ & Hv & Hr). constructor; [destruct v; [congruence | exact Logic.I] | apply (IH true Hr)].
+    - constructor; [exact Logic.I | apply (IH false Hn)]. }
+  pose proof (join_unstream els Hne) as Hj. rewrite (unstream_normal els prev Hn), (ml_elements_join_map els prev Hs) in Hj.
+  exact Hj.
 Qed.
 
-Lemma simple_elements_ml els : forall prev, simple_elements els prev = true ->
-  ml_elements els prev = true /\ has_lf els = false.
+Lemma ml_pattern_join p : ml_pattern p = true -> join_pattern p = p.
 Proof.
-  induction els as [|el r IH]; intros prev Hs; [split; reflexivity|].
-  destruct el as [v | [sel vs | i]]; cbn [simple_elements] in Hs; try discriminate Hs; cbn [ml_elements has_lf existsb].
-  - apply andb_prop in Hs as [Hs Hr]. apply andb_prop in Hs as [Hp Hv]. destruct (IH true Hr) as [I1 I2].
-    destruct (inner_text_ml (match r with [] => false | _ => true end) v Hv) as [M1 M2].
-    rewrite Hp, M1, I1, M2. split; [reflexivity | exact I2].
-  - apply andb_prop in Hs as [Hi Hr]. destruct (IH false Hr) as [I1 I2]. rewrite Hi, I1. split; [reflexivity | exact I2].
+  destruct p as [els]. intros Hp. destruct (ml_pattern_parts els Hp) as (_ & Hs & _).
+  rewrite join_pattern_els, (ml_elements_join_map els false Hs), (ml_elements_join els false Hs). reflexivity.
 Qed.
 
-Lemma simple_pattern_ml p : simple_pattern p = true -> ml_pattern p = true.
-Proof.
-  intros H. destruct (simple_pattern_spec p H) as [els [-> Hp]].
-  destruct (simple_pattern_parts els Hp) as (Hne & Hs & Hf & Hl).
-  destruct (simple_elements_ml els false Hs) as [M1 M2].
-  unfold ml_pattern. rewrite M1, M2. cbn [negb orb]. rewrite andb_true_r.
-  assert (H1 : ml_first_ok els = true).
-  { destruct els as [|[[|b t]|e] r]; try reflexivity. cbn [first_ok] in Hf. cbn [ml_first_ok]. rewrite Hf. cbn [andb].
-    cbn [simple_elements] in Hs. apply andb_prop in Hs as [Hs _]. apply andb_prop in Hs as [_ Hv].
-    destruct (inner_text_spec _ Hv) as (b' & r' & E & _ & Hline). injection E as <- <-.
-    unfold text_line in Hline. cbn [forallb] in Hline. apply andb_prop in Hline as [Hb _].
-    apply wf_text_byte_spec in Hb as (_ & _ & _ & H10). rewrite H10. reflexivity. }
-  assert (H2 : ml_last_ok els = true).
-  { unfold last_ok in Hl. unfold ml_last_ok. destruct (rev els) as [|[v|e] r] eqn:Er; try reflexivity.
-    rewrite Hl. cbn [andb].
-    assert (Hin : In (TextElement v) els) by (apply in_rev; rewrite Er; left; reflexivity).
-    assert (Hv : inner_text v = true).
-    { clear - Hs Hin. revert Hs. generalize false. induction els as [|el r IH]; intros prev Hs; [destruct Hin|].
-      destruct el as [v' | [sel vs | i]]; cbn [simple_elements] in Hs; try discriminate Hs.
-      - apply andb_prop in Hs as [Hs Hr]. apply andb_prop in Hs as [_ Hv'].
-        destruct Hin as [E | Hin]; [injection E as <-; exact Hv' | apply (IH Hin true Hr)].
-      - apply andb_prop in Hs as [_ Hr]. destruct Hin as [E | Hin]; [discriminate E | apply (IH Hin false Hr)]. }
-    destruct (inner_text_spec _ Hv) as (b' & r' & E & _ & Hline).
-    assert (Hvne : v <> []) by (rewrite E; discriminate).
-    unfold text_line in Hline. rewrite forallb_forall in Hline. specialize (Hline _ (last_in v 0%N Hvne)).
-    apply wf_text_byte_spec in Hline as (_ & _ & _ & H10). rewrite H10. reflexivity. }
-  rewrite H1, H2. destruct els; [congruence | reflexivity].
-Qed.
-
-Theorem simple_resource_ml t : simple_resource t = true -> ml_resource t = true.
-Proof.
-  assert (Ha : forall attrs, forallb simple_attribute attrs = true -> forallb ml_attribute attrs = true).
-  { intros attrs. rewrite !forallb_forall. intros H a Hin. specialize (H a Hin). unfold simple_attribute in H.
-    apply andb_prop in H as [Hid Hp]. unfold ml_attribute. rewrite Hid, (simple_pattern_ml _ Hp). reflexivity. }
-  assert (Hpe : forall e, plain_entry e = true -> ml_plain_entry e = true).
-  { intros e. destruct e as [id [p|] attrs [|]|id p attrs [|]|c|c|c|]; try discriminate; cbn [plain_entry ml_plain_entry];
-      intros H; try exact H.
-    all: apply andb_prop in H as [H Hattrs]; apply andb_prop in H as [Hid Hp];
-      rewrite Hid, (Ha attrs Hattrs), ?(simple_pattern_ml _ Hp), ?Hp; reflexivity. }
-  unfold simple_resource, ml_resource. rewrite !forallb_forall. intros H e Hin. specialize (H e Hin).
-  unfold simple_entry in H. apply andb_prop in H as [H1 H2]. unfold ml_entry. rewrite (Hpe _ H1), H2. reflexivity.
-Qed.
+End Frag.
